@@ -20,7 +20,8 @@ def setItemVar : SetItem → String
 def mergeClauses (s : Stmt) : List (PathPat × List SetItem × List SetItem) :=
   s.updates.filterMap fun | .merge p oc om => some (p, oc, om) | _ => none
 
-/-- C12-merge-set-not-counted: MERGE with ON CREATE SET / ON MATCH SET (their writes are not counted) -/
+/-- C12-merge-set-not-counted: MERGE with ON CREATE SET / ON MATCH SET (their writes are not counted; how often
+    ON MATCH is applied — once per enumerated direction and copy — is therefore not observable in the count) -/
 def mergeSet (s : Stmt) : Bool := (mergeClauses s).any fun (_, oc, om) => !oc.isEmpty || !om.isEmpty
 
 def patternVars (p : PathPat) : List String :=
@@ -59,13 +60,6 @@ def repeatedTarget (g : Graph) (s : Stmt) : Bool :=
     | _ => false
   hasItem && hasDupVal (touched A params g s)
 
-/-- C12-label-count-unconditional: SET / REMOVE of a label is counted whether or not it changes the node -/
-def labelCount (s : Stmt) : Bool :=
-  s.updates.any fun
-    | .set its => its.any fun | .labels .. => true | _ => false
-    | .remove its => its.any fun | .labels .. => true | _ => false
-    | _ => false
-
 /-- C12-merge-partial-pattern-reuse: relationship MERGE whose end nodes are not both bound re-uses existing
     nodes that match the node patterns instead of matching / creating the whole pattern -/
 def mergePartial (g : Graph) (s : Stmt) : Bool :=
@@ -82,8 +76,9 @@ def mergeStale (s : Stmt) : Bool :=
     let keys := p.start.props.map (·.1) ++ p.steps.flatMap fun (rp, np) => rp.props.map (·.1) ++ np.props.map (·.1)
     oc.any fun | .prop _ k _ => keys.contains k | .mapReplace .. => true | .mapMerge _ m => m.any (keys.contains ·.1) | _ => false
 
-/-- C12-set-items-reordered: inside one SET clause a map item (`x = {…}` / `x += {…}`) is written before a
-    property item on the same variable; the planner runs all property items first -/
+/-- C12-merge-set-items-reordered (what is left after fix 5723576): inside ON CREATE SET / ON MATCH SET of a MERGE a map
+    item is written before a property item on the same variable; `compile_merge_set_items` flattens the
+    subclauses into property / map / label lists -/
 def setReordered (s : Stmt) : Bool :=
   let bad (items : List SetItem) : Bool :=
     let rec go : List SetItem → Bool
@@ -94,7 +89,7 @@ def setReordered (s : Stmt) : Bool :=
           | .mapMerge x _ => rest.any fun | .prop y _ _ => x == y | _ => false
           | _ => false) || go rest
     go items
-  s.updates.any fun | .set its => bad its | .merge _ oc om => bad oc || bad om | _ => false
+  s.updates.any fun | .merge _ oc om => bad oc || bad om | _ => false
 
 /-- C12-deleted-rel-props-resurrect: the statement creates a relationship identity that was deleted earlier and
     whose property map is still stored (root cause in the storage engine: C06) -/
@@ -109,10 +104,9 @@ def triggers (g : Graph) (names : List String) (s : Stmt) : List String :=
   (if mergeSet s then ["C12-merge-set-not-counted"] else []) ++
   (if nullBound A params g s then ["C12-null-bound-variable-recreated"] else []) ++
   (if repeatedTarget A params g s then ["C12-writes-decided-against-snapshot"] else []) ++
-  (if labelCount s then ["C12-label-count-unconditional"] else []) ++
   (if mergePartial A params g s then ["C12-merge-partial-pattern-reuse"] else []) ++
   (if mergeStale s then ["C12-merge-stale-overlay"] else []) ++
-  (if setReordered s then ["C12-set-items-reordered"] else []) ++
+  (if setReordered s then ["C12-merge-set-items-reordered"] else []) ++
   (if relResurrect A params g names s then ["C12-deleted-rel-props-resurrect"] else [])
 
 end Nervus.Cy.UFindings
